@@ -359,6 +359,7 @@ Section FluxHeader.
   Hypothesis HP : H15_parts c.
   Hypothesis FP : flux_parts c.
   Hypothesis BP : batch_parts (c_be c) (c_batch c).
+  Hypothesis BE : c_be c = Flux.
   Let st := c_step c.
   Let b := c_batch c.
   Let broker := c_broker c.
@@ -387,7 +388,7 @@ Section FluxHeader.
       rewrite forallb_forall in DS. intro X. apply DS in X.
       repeat (apply andb_true_iff in X; destruct X as [X ?]).
       vm_compute in X. discriminate X.
-    - simpl. pose proof (hp_name c HP) as NM. fold st in NM. unfold safe_name in NM.
+    - simpl. pose proof (hp_name c HP) as NM. fold st in NM. unfold safe_name in NM. rewrite BE in NM. cbn [job_name] in NM.
       destruct (st_name st) eqn:N0; try discriminate. rewrite forallb_forall in NM. intro X. apply NM in X.
       apply andb_true_iff in X. destruct X as [X _]. apply safe_char_plain in X. destruct X as [_ [X _]]. congruence.
     - apply in_app_or in I. destruct I as [I|I].
